@@ -436,7 +436,12 @@ class SimRaw(io.RawIOBase):
         return self._mode
 
     def fileno(self) -> int:
-        raise io.UnsupportedOperation("SimRaw has no file descriptor to hand out")
+        # Write-only handles hide their descriptor, so that bulk writers (numpy's tofile) go through write() and
+        # stay inside the seam.  Read-only and update ("+") handles hand it out: mmap / memmap need it, and what
+        # is written through a mapping is real (it merely is not fault-injected).
+        if self._f is not None and (not self._writable or "+" in self._mode):
+            return self._f.fileno()
+        raise io.UnsupportedOperation("SimRaw hides the descriptor of write-only handles")
 
     def isatty(self) -> bool:
         return False
